@@ -2,7 +2,6 @@ package main
 
 import (
 	"crypto"
-	"crypto/x509"
 	"encoding/hex"
 	"encoding/json"
 	"fmt"
@@ -330,6 +329,9 @@ func newSuccessor(rng *rand.Rand, pred *trcPlan) *trcPlan {
 func buildClean(e *env, rng *rand.Rand, pred *trcPlan, kind string, n need) *updPlan {
 	u := &updPlan{pred: pred, kind: kind, succ: newSuccessor(rng, pred)}
 	q := int(pred.p.Quorum)
+	if n.newVoter && kind == "regular" {
+		n.replacedRegular = true
+	}
 	switch kind {
 	case "regular":
 		if !n.noChange {
@@ -509,18 +511,17 @@ func updateDefects() []defect {
 			return true
 		}},
 		{name: "wrong-base", kinds: both, apply: func(e *env, rng *rand.Rand, u *updPlan) bool {
-			if u.pred.p.Base > 1 && rng.IntN(2) == 0 {
-				u.succ.p.Base = u.pred.p.Base - 1
-			} else {
-				if u.pred.p.Base+1 >= u.succ.p.Serial { // would turn the successor into a base TRC
-					if u.pred.p.Base == 1 {
-						return false
-					}
-					u.succ.p.Base = u.pred.p.Base - 1
-				} else {
-					u.succ.p.Base = u.pred.p.Base + 1
-				}
+			var cand []int64
+			if u.pred.p.Base > 1 {
+				cand = append(cand, u.pred.p.Base-1)
 			}
+			if u.pred.p.Base+1 < u.succ.p.Serial { // else the successor would turn into a base TRC
+				cand = append(cand, u.pred.p.Base+1)
+			}
+			if len(cand) == 0 {
+				return false
+			}
+			u.succ.p.Base = cand[rng.IntN(len(cand))]
 			return true
 		}},
 		{name: "serial-unchanged", kinds: both, apply: func(e *env, rng *rand.Rand, u *updPlan) bool {
@@ -790,7 +791,8 @@ func unjudgedVariants() []defect {
 			if len(u.succ.p.Votes) <= int(u.pred.p.Quorum) || len(u.mustVote) > 0 {
 				return false
 			}
-			return u.dropSig(u.aVoter(rng))
+			c := u.aVoter(rng)
+			return c != nil && u.dropSig(c)
 		}},
 		{name: "digest-not-matching-curve", kinds: both, apply: func(e *env, rng *rand.Rand, u *updPlan) bool {
 			s := &u.sigs[rng.IntN(len(u.sigs))]
@@ -1005,8 +1007,6 @@ func uniq(l []string) []string {
 	}
 	return out
 }
-
-func has(l []string, s string) bool { return contains(l, s) }
 
 // baseDefects: ways of breaking a base TRC.
 func baseDefects() []defect {
@@ -1265,5 +1265,3 @@ func replayC32(r *mon.Run) {
 	r.Sample(map[string]any{"replay": r.ReplayFile(), "result": res})
 }
 
-var _ = x509.ParseCertificate
-var _ = has
